@@ -11,6 +11,7 @@ import (
 	"fmt"
 	"os"
 	"path/filepath"
+	"runtime"
 	"runtime/debug"
 	"sort"
 	"strings"
@@ -236,6 +237,36 @@ func removeStaleScratch() {
 // maps, and with the default GC pacing a third of the CPU went into clearing
 // and returning that memory.
 func tuneGC() { debug.SetGCPercent(800) }
+
+// scaledDeadline is vr.Deadline made robust against a loaded machine: the
+// budgets are sized for an idle 16-core box, and when the 1-minute load average
+// exceeds the number of CPUs the same enumeration simply needs proportionally
+// longer, so the budget is stretched by load/CPUs (never beyond what the INDEX
+// timeouts of 10 min / 30 min leave room for). An explicit VERIF_BUDGET_S is
+// taken as is. This only decides how much is explored before the run reports
+// exhaustive=false; it is never part of an oracle.
+func scaledDeadline(quick, thorough time.Duration) time.Time {
+	d := time.Until(vr.Deadline(quick, thorough))
+	if os.Getenv("VERIF_BUDGET_S") != "" {
+		return time.Now().Add(d)
+	}
+	limit := 7 * time.Minute
+	if vr.Thorough() {
+		limit = 22 * time.Minute
+	}
+	if data, err := os.ReadFile("/proc/loadavg"); err == nil {
+		var load float64
+		if _, err := fmt.Sscan(string(data), &load); err == nil {
+			if scale := load / float64(runtime.NumCPU()); scale > 1 {
+				d = time.Duration(float64(d) * scale)
+			}
+		}
+	}
+	if d > limit {
+		d = limit
+	}
+	return time.Now().Add(d)
+}
 
 // workers is the number of in-process worker subtests.
 func workers() int { return vr.Workers() }
